@@ -417,7 +417,9 @@ func (r *rwRT) ruleSig() {
 					}
 					return nil
 				})
-			F := r.node(fkind, "F")
+			// the sets the collector fills are re-initialised for every file before it runs (RW.FILEPASSES decides that)
+		d.in.EmptyMaps = func(key string) bool { return strings.HasPrefix(key, "r.") }
+		F := r.node(fkind, "F")
 			call := r.node("CallExpr", "call")
 			marked, completed := false, false
 			sts := []*State{d.base}
